@@ -70,7 +70,7 @@ pub const FIRST_DECOMPOSITION: usize = 22;
 /// nalgebra run is first probed in a child process (see `run_case`)
 pub const HANG_PRONE: [usize; 2] = [2, 3];
 /// observed hangs per (job, backend, estimator) after which the backend is no longer run in the job
-pub const HANG_LIMIT: [u32; 3] = [0, 3, 1];
+pub const HANG_LIMIT: [u32; 3] = [0, 2, 1];
 
 #[derive(Clone, Debug)]
 pub struct Data {
@@ -397,7 +397,15 @@ fn same(a: &EOut, b: &EOut, tol: f64, mask: &[bool]) -> bool {
 // termination guard: fits that may not terminate run in a child process with a per-case deadline
 
 pub const PROBE_FLAG: &str = "--c20-probe";
-const PROBE_DEADLINE_MS: u64 = 1000;
+const PROBE_DEADLINE_MS: u64 = 250;
+
+/// CPU time (user + system, ms) consumed so far by process `pid` (Linux /proc, 100 ticks per second).
+fn cpu_ms(pid: u32) -> Option<u64> {
+    let s = std::fs::read_to_string(format!("/proc/{}/stat", pid)).ok()?;
+    let rest = &s[s.rfind(')')? + 1..];
+    let f: Vec<&str> = rest.split_whitespace().collect();
+    Some((f.get(11)?.parse::<u64>().ok()? + f.get(12)?.parse::<u64>().ok()?) * 10)
+}
 
 fn data_of(v: &serde_json::Value) -> (usize, usize, usize, usize, Data) {
     let g = |k: &str| v[k].as_u64().unwrap_or(0) as usize;
@@ -415,7 +423,7 @@ pub fn probe_main() -> ! {
     std::thread::spawn(move || loop {
         std::thread::sleep(std::time::Duration::from_millis(500));
         let b = BUSY_SINCE.load(std::sync::atomic::Ordering::Relaxed);
-        if b != 0 && t0.elapsed().as_millis() as u64 > b + 10 * PROBE_DEADLINE_MS {
+        if b != 0 && t0.elapsed().as_millis() as u64 > b + 80 * PROBE_DEADLINE_MS {
             std::process::exit(3);
         }
     });
@@ -475,7 +483,23 @@ fn guarded(ix: usize, e: usize, cfg: usize, d: &Data, lx: usize) -> Result<EOut,
     }
     let srv = slot.as_mut().unwrap();
     writeln!(srv.stdin, "{}", req).and_then(|_| srv.stdin.flush()).map_err(|e| format!("guard child: {}", e))?;
-    match srv.rx.recv_timeout(std::time::Duration::from_millis(PROBE_DEADLINE_MS)) {
+    // Deadline in CPU time of the child (robust against a loaded machine: a fit of these sizes needs
+    // well under 5 ms of CPU, a non-terminating one burns CPU continuously), with a wall-clock fallback.
+    let pid = srv.child.id();
+    let cpu0 = cpu_ms(pid).unwrap_or(0);
+    let t0 = std::time::Instant::now();
+    let answer = loop {
+        match srv.rx.recv_timeout(std::time::Duration::from_millis(20)) {
+            Err(std::sync::mpsc::RecvTimeoutError::Timeout) => {
+                let burnt = cpu_ms(pid).map(|c| c.saturating_sub(cpu0)).unwrap_or(0);
+                if burnt >= PROBE_DEADLINE_MS || t0.elapsed().as_millis() as u64 >= 40 * PROBE_DEADLINE_MS {
+                    break Err(std::sync::mpsc::RecvTimeoutError::Timeout);
+                }
+            }
+            other => break other,
+        }
+    };
+    match answer {
         Ok(txt) => {
             let v: serde_json::Value = serde_json::from_str(txt.trim()).map_err(|e| format!("guard child output: {}", e))?;
             Ok(if let Some(a) = v["vals"].as_array() {
@@ -498,15 +522,6 @@ fn guarded(ix: usize, e: usize, cfg: usize, d: &Data, lx: usize) -> Result<EOut,
             let st = srv.child.wait().map(|s| format!("{:?}", s.code())).unwrap_or_default();
             Err(format!("guard child died (exit {})", st))
         }
-    }
-}
-
-/// Called after every execution: nothing to do (the child is idle between requests); at process
-/// exit the child sees EOF on its stdin and exits.
-pub fn shutdown() {
-    if let Some(mut srv) = SERVER.lock().unwrap().take() {
-        srv.child.kill().ok();
-        srv.child.wait().ok();
     }
 }
 
@@ -558,6 +573,10 @@ pub fn run_case(job: &str, e: usize, cfg: usize, d: &Data, lx: usize) {
     if let EOut::Vals(v) = &outs[0] {
         mc::nontrivial();
         mc::count(if e >= FIRST_DECOMPOSITION { "decomposition_cases_with_values" } else { "estimator_cases_with_values" });
+        mc::count(name);
+        if outs.iter().all(|o| matches!(o, EOut::Vals(_))) {
+            mc::count("cases_with_values_from_all_three_backends");
+        }
         if v.iter().any(|x| !x.is_finite()) {
             mc::count("estimator_cases_with_nonfinite_values");
         }
@@ -577,6 +596,19 @@ pub fn run_case(job: &str, e: usize, cfg: usize, d: &Data, lx: usize) {
     }
     for ix in 1..3 {
         if matches!(outs[ix], EOut::Skipped) || same(&outs[0], &outs[ix], tol, &mask) {
+            // calibration record: deviation of an agreeing binding from the built-in backend
+            if let (EOut::Vals(a), EOut::Vals(b)) = (&outs[0], &outs[ix]) {
+                let worst = a.iter().zip(b).enumerate().filter(|(i, _)| !mask.get(*i).copied().unwrap_or(false)).fold(0.0f64, |w, (_, (x, y))| if x != y && x.is_finite() && y.is_finite() { w.max((x - y).abs() / x.abs().max(y.abs()).max(1.0)) } else { w });
+                mc::count(if worst == 0.0 {
+                    "binding_equals_dense_bitwise"
+                } else if worst <= 1e-12 {
+                    "binding_deviation_le_1e-12"
+                } else if worst <= 1e-8 {
+                    "binding_deviation_le_1e-8"
+                } else {
+                    "binding_deviation_le_tolerance_of_iterative_solver"
+                });
+            }
             continue;
         }
         let mut class = match &outs[ix] {
